@@ -36,7 +36,7 @@ use self::errors::*;
 use crate::bif::Bif;
 use crate::context::FeelContext;
 use crate::names::Name;
-use crate::strings::ToFeelString;
+use crate::strings::{to_json_string, ToFeelString};
 use crate::temporal::date::FeelDate;
 use crate::temporal::dt_duration::FeelDaysAndTimeDuration;
 use crate::temporal::ym_duration::FeelYearsAndMonthsDuration;
@@ -282,7 +282,7 @@ impl Jsonify for Value {
       Value::List(items) => items.jsonify(),
       Value::Number(value) => value.jsonify(),
       Value::Null(_) => "null".to_string(),
-      Value::String(s) => format!("\"{}\"", s),
+      Value::String(s) => to_json_string(s),
       _ => format!("jsonify not implemented for: {}", self),
     }
   }
